@@ -119,6 +119,7 @@ func ZZ_C14_Splat() {
 // complete, correct mesh (only trailing framing was cut).
 func plyASCIITrunc(points bool) {
 	var m modeling.Mesh
+	var tex []vector2.Float64
 	V := 1 + zz.Choose("V", zz.Bound("V"))
 	pos := make([]vector3.Float64, V)
 	for i := range pos {
@@ -133,6 +134,14 @@ func plyASCIITrunc(points bool) {
 			idx[i] = zz.Int(fmt.Sprintf("idx[%d]", i), 0, V-1)
 		}
 		m = modeling.NewTriangleMesh(idx).SetFloat3Attribute(modeling.PositionAttribute, pos)
+		if zz.Bound("UV") == 1 && zz.Bool("uv") {
+			// per-face texture coordinate lists follow the vertex indices on every face line
+			tex = make([]vector2.Float64, V)
+			for i := range tex {
+				tex[i] = vector2.New(float64(zz.Float32(fmt.Sprintf("uv[%d].x", i))), float64(zz.Float32(fmt.Sprintf("uv[%d].y", i))))
+			}
+			m = m.SetFloat2Attribute(modeling.TexCoordAttribute, tex)
+		}
 	}
 	buf := zz.NewBuf()
 	err := ply.Write(buf, m, ply.ASCII)
@@ -149,18 +158,42 @@ func plyASCIITrunc(points bool) {
 	if err != nil {
 		return
 	}
-	zz.Assert(back.AttributeLength() == V && back.PrimitiveCount() == m.PrimitiveCount(), "a truncated ascii PLY was accepted with missing or extra elements")
-	if back.AttributeLength() != V || !back.HasFloat3Attribute(modeling.PositionAttribute) {
-		return
+	if tex != nil {
+		// a mesh with per-face texture coordinates is unwelded by the reader: one vertex per corner
+		zz.Assert(back.PrimitiveCount() == m.PrimitiveCount() && back.AttributeLength() == 3*m.PrimitiveCount(), "a truncated ascii PLY was accepted with missing or extra elements")
+		if back.PrimitiveCount() != m.PrimitiveCount() || !back.HasFloat3Attribute(modeling.PositionAttribute) {
+			return
+		}
+		bp, bi, mi := back.Float3Attribute(modeling.PositionAttribute), back.Indices(), m.Indices()
+		for i := 0; i < mi.Len() && i < bi.Len(); i++ {
+			g, w := bp.At(bi.At(i)), pos[mi.At(i)]
+			zz.Assert(g.X() == w.X() && g.Y() == w.Y() && g.Z() == w.Z(), "a truncated ascii PLY returned a placeholder vertex for data that was not in the prefix")
+		}
+	} else {
+		zz.Assert(back.AttributeLength() == V && back.PrimitiveCount() == m.PrimitiveCount(), "a truncated ascii PLY was accepted with missing or extra elements")
+		if back.AttributeLength() != V || !back.HasFloat3Attribute(modeling.PositionAttribute) {
+			return
+		}
+		bp := back.Float3Attribute(modeling.PositionAttribute)
+		for i := 0; i < V; i++ {
+			zz.Assert(bp.At(i).X() == pos[i].X() && bp.At(i).Y() == pos[i].Y() && bp.At(i).Z() == pos[i].Z(), "a truncated ascii PLY returned a placeholder vertex for data that was not in the prefix")
+		}
 	}
-	bp := back.Float3Attribute(modeling.PositionAttribute)
-	for i := 0; i < V; i++ {
-		zz.Assert(bp.At(i).X() == pos[i].X() && bp.At(i).Y() == pos[i].Y() && bp.At(i).Z() == pos[i].Z(), "a truncated ascii PLY returned a placeholder vertex for data that was not in the prefix")
-	}
-	if !points && back.PrimitiveCount() == m.PrimitiveCount() {
+	if !points && tex == nil && back.PrimitiveCount() == m.PrimitiveCount() {
 		bi, mi := back.Indices(), m.Indices()
 		for i := 0; i < mi.Len(); i++ {
 			zz.Assert(bi.At(i) == mi.At(i), "a truncated ascii PLY returned a face that was not in the prefix")
+		}
+	}
+	if tex != nil && back.PrimitiveCount() == m.PrimitiveCount() {
+		// the reader unwelds a mesh with per-face texture coordinates: compare corner by corner
+		zz.Assert(back.HasFloat2Attribute(modeling.TexCoordAttribute), "a truncated ascii PLY was accepted without the texture coordinates of the complete file")
+		if back.HasFloat2Attribute(modeling.TexCoordAttribute) {
+			bt, bi, mi := back.Float2Attribute(modeling.TexCoordAttribute), back.Indices(), m.Indices()
+			for i := 0; i < mi.Len() && i < bi.Len(); i++ {
+				g, w := bt.At(bi.At(i)), tex[mi.At(i)]
+				zz.Assert(g.X() == w.X() && g.Y() == w.Y(), "a truncated ascii PLY returned texture coordinates that were not in the prefix")
+			}
 		}
 	}
 }
